@@ -35,7 +35,9 @@ type gcell struct {
 	Wait    string `json:"wait_async_timeout"`
 }
 
-var gVariants = []string{"replicas", "wait", "wait+replicas", "swap", "swap+replicas", "label-key", "label-key+wait", "to-majority", "bounce"}
+// the second line: updates that differ from the configuration in force in exactly one field
+var gVariants = []string{"replicas", "wait", "wait+replicas", "swap", "swap+replicas", "label-key", "label-key+wait", "to-majority", "bounce",
+	"primary-name", "dr-name", "primary-replicas", "dr-replicas", "wait-store", "wait-sync", "label-key-case"}
 var gFaults = []string{"", "u-fail-before", "u-lost-ack", "u-alloc", "u-rep", "t-fail-before", "t-lost-ack"}
 var gDown = map[string][]uint64{"none": nil, "dr1": {4}, "drall": {4, 5}, "p1": {1}, "p2": {1, 2}, "s5": {5}, "s3": {3}}
 
@@ -99,6 +101,20 @@ func gVariantCfgs(v string, base config.ReplicationModeConfig) []config.Replicat
 	case "label-key+wait":
 		n.DRAutoSync.LabelKey = "site"
 		toggle(&n)
+	case "primary-name":
+		n.DRAutoSync.Primary = "dc3"
+	case "dr-name":
+		n.DRAutoSync.DR = "dc3"
+	case "primary-replicas":
+		n.DRAutoSync.PrimaryReplicas = 1
+	case "dr-replicas":
+		n.DRAutoSync.DRReplicas = 2
+	case "wait-store":
+		n.DRAutoSync.WaitStoreTimeout.Duration = 0 // every store counts as failed
+	case "wait-sync":
+		n.DRAutoSync.WaitSyncTimeout.Duration = 90 * time.Second
+	case "label-key-case":
+		n.DRAutoSync.LabelKey = "ZONE" // same key for the stores, a different string for UpdateConfig
 	case "to-majority":
 		n.ReplicationMode = modeMaj
 	case "bounce":
@@ -236,7 +252,7 @@ func (w *world) runCell(c gcell, settle time.Duration) {
 	logBefore := len(w.kv.Log())
 	uWrites := int64(0)
 	switch c.Variant {
-	case "label-key", "label-key+wait", "bounce":
+	case "label-key", "label-key+wait", "label-key-case", "bounce":
 		uWrites = 1
 	}
 	switch c.Fault {
@@ -363,7 +379,7 @@ func (w *world) runCell(c gcell, settle time.Duration) {
 		switch sv.By {
 		case "config":
 			okDoc := (next.State == stRecover && (c.Variant == "bounce")) ||
-				(next.State == stAsync && (c.Variant == "label-key" || c.Variant == "label-key+wait"))
+				(next.State == stAsync && (c.Variant == "label-key" || c.Variant == "label-key+wait" || c.Variant == "label-key-case"))
 			if !okDoc {
 				r.Violation(key("config-update-unexplained-transition"), fmt.Sprintf("UpdateConfig (%s) wrote %v after %v", c.Variant, next, cur), wit())
 			}
